@@ -111,6 +111,17 @@ class WellFormed(Suite):
             if rng.random() < 0.3:
                 D.append([[base[0]], [base[1]]])
             cases.append({"s": rng.choice([gen.UNIFYING, gen.PSEUDO, gen.INDUCED, gen.UNIFYING_HALF, gen.GENERIC]), "D": D, "one": rng.random() < 0.5})
+        for _ in range(20 if tier == "quick" else 250):
+            # top-k lists: every ranking has the same NUMBER of elements, over different elements - incomplete although "all as large"
+            pool = rng.choice([["a", "b", "c", "d", "e"], [1, 2, 3, 4, 5], ["1", "2", "3", "x", "y"]])
+            k = rng.randint(1, 3)
+            D = []
+            for _ in range(rng.randint(2, 4)):
+                els = rng.sample(pool, k)
+                D.append(gen.random_ranking(rng, els, 1.0, rng.choice([1.0, 0.6])))
+            if len({e for r in D for b in r for e in b}) == k:
+                D.append([[e] for e in rng.sample([x for x in pool], k)])
+            cases.append({"s": rng.choice([gen.UNIFYING, gen.UNIFYING, gen.UNIFYING_HALF, gen.INDUCED]), "D": D, "one": rng.random() < 0.5})
         for _ in range(40 if tier == "quick" else 500):
             D = named_dataset(rng, 5, 5) if rng.random() < 0.5 else gen.random_dataset(rng, 5, 6)
             cases.append({"s": nondyadic_scheme(rng), "D": D, "one": rng.random() < 0.5, "nondyadic": True})
